@@ -17,6 +17,11 @@ type errFS struct {
 	renames  int
 	armed    bool
 	injected bool
+	// failWrite: sequential Write calls (gob payloads) are injection points too
+	failWrite bool
+	// shortWrite: the failing WriteAt writes a 7-byte prefix before it reports the error
+	shortWrite bool
+	segsOnly   bool // only segment files are injection points
 }
 
 func (e *errFS) fail() bool {
@@ -35,7 +40,8 @@ func (e *errFS) OpenFile(name string, flag int, perm os.FileMode) (fs.File, erro
 	if err != nil {
 		return nil, err
 	}
-	return &errFile{File: f, e: e}, nil
+	seg := len(name) > 4 && name[len(name)-4:] == segmentExt
+	return &errFile{File: f, e: e, seg: seg}, nil
 }
 func (e *errFS) Stat(name string) (os.FileInfo, error) { return e.inner.Stat(name) }
 func (e *errFS) Remove(name string) error               { return e.inner.Remove(name) }
@@ -51,17 +57,29 @@ func (e *errFS) MkdirAll(path string, perm os.FileMode) error { return e.inner.M
 
 type errFile struct {
 	fs.File
-	e *errFS
+	e   *errFS
+	seg bool
 }
 
 func (f *errFile) WriteAt(p []byte, off int64) (int, error) {
-	if f.e.fail() {
+	if (f.seg || !f.e.segsOnly) && f.e.fail() {
+		if f.e.shortWrite && len(p) > 7 {
+			n, _ := f.File.WriteAt(p[:7], off)
+			return n, errInjected
+		}
 		return 0, errInjected
 	}
 	return f.File.WriteAt(p, off)
 }
+
+func (f *errFile) Write(p []byte) (int, error) {
+	if f.e.failWrite && f.e.fail() {
+		return 0, errInjected
+	}
+	return f.File.Write(p)
+}
 func (f *errFile) Truncate(size int64) error {
-	if f.e.fail() {
+	if (f.seg || !f.e.segsOnly) && f.e.fail() {
 		return errInjected
 	}
 	return f.File.Truncate(size)
